@@ -513,7 +513,8 @@ def load_module_from_path(inference_state, file_io, import_names=None, is_packag
         if path.name == '__init__.pyi':
             python_file_io = folder_io.get_file_io('__init__.py')
         else:
-            python_file_io = folder_io.get_file_io(import_names[-1] + '.py')
+            # import_names might be None if the stub is not on the sys path.
+            python_file_io = folder_io.get_file_io(path.stem + '.py')
 
         try:
             v = load_module_from_path(
